@@ -11,8 +11,8 @@ TRUSTED_COMMON = [
 
 _build_cache = {}
 # properties whose theorems unfold the translated flag functions / the translated merge rules
-SRC_PROPS = {'C01', 'C02', 'C03', 'C04', 'C05', 'C06', 'C07', 'C08', 'C13', 'C15', 'C16', 'C17', 'C18', 'C19'}
-SRCM_PROPS = {'C02', 'C03', 'C04', 'C05', 'C06', 'C07', 'C08', 'C13', 'C15', 'C16'}
+SRC_PROPS = {'C01', 'C02', 'C03', 'C04', 'C05', 'C06', 'C07', 'C08', 'C13', 'C14', 'C15', 'C16', 'C17', 'C18', 'C19'}
+SRCM_PROPS = {'C02', 'C03', 'C04', 'C05', 'C06', 'C07', 'C08', 'C13', 'C14', 'C15', 'C16'}
 SRCE_PROPS = {'C07', 'C09', 'C10', 'C11', 'C14'}
 
 
